@@ -199,10 +199,19 @@ class ClsRef:
                         out.append(c)
         return out
 
-    def lookup(self, name):
-        for c in self.mro():
+    def lookup(self, name, start_after=None):
+        mro = self.mro()
+        if start_after is not None:
+            mro = mro[mro.index(start_after) + 1:]
+        for c in mro:
             if name in c.props:
-                return ("prop", c, c.props[name])
+                g, st = c.props[name]
+                if g is None or st is None:  # `@Base.x.setter` in a subclass: the other accessor is inherited
+                    for b in mro[mro.index(c) + 1:]:
+                        if name in b.props:
+                            g = g or b.props[name][0]
+                            st = st or b.props[name][1]
+                return ("prop", c, [g, st])
             if name in c.methods:
                 return ("method", c, c.methods[name])
             if name in c.attrs:
